@@ -36,7 +36,7 @@ func checkC01(c *Ctx, r *Report) {
 	// "exactly the selected data" and are re-stated here under this property
 	importRules(c, r, "C09", "C01.SKIP", "the @skip/@include rules of C09 (sticky exclusion, polarity, gate before every dispatch, operation variables), which decide which selections are in the response at all")
 	importRules(c, r, "C10", "C01.FDEF", "the field definition used for a resolution is looked up in the container type of that resolution (C10.FIELD): a definition remembered from another container (the first member of a union list) coerces the value with the wrong type", "C10.FIELD")
-	importRules(c, r, "C06", "C01.NESTED", "each element of a list is resolved by the type dispatcher applied to the list's element type (C06.G1): inner lists of [[T]] are mirrored element by element only through the dispatcher", "C06.G1~type dispatcher for the element type")
+	importRulesFrom(c, r, "C06", func(c *Ctx, sub *Report) { c06G1(c, sub, a) }, "C01.NESTED", "each element of a list is resolved by the type dispatcher applied to the list's element type (C06.G1): inner lists of [[T]] are mirrored element by element only through the dispatcher", "C06.G1~type dispatcher for the element type")
 	c01FragLink(c, r)
 	r.rule("C01.META", "the Go type recorded for an object type and the type it is compared with are derived from objects in the same way (as C08.METADOM): a union member or interface implementation bound under a different derivation (stripped, re-pointered) is resolved with the wrong method set or not found, so selected fields come back null")
 	c08MetaDom(c, r, "C01.META")
@@ -683,8 +683,14 @@ func importRules(c *Ctx, r *Report, from, rule, text string, only ...string) {
 		r.undecided(rule, "rule set "+from, token.NoPos, "not registered")
 		return
 	}
+	importRulesFrom(c, r, from, pd.run, rule, text, only...)
+}
+
+// importRulesFrom: as importRules, with the part of the other property's rule set to run given explicitly
+// (when only one rule family of an expensive property is wanted).
+func importRulesFrom(c *Ctx, r *Report, from string, run func(*Ctx, *Report), rule, text string, only ...string) {
 	sub := newReport(from, r.Tier, c)
-	pd.run(c, sub)
+	run(c, sub)
 	r.rule(rule, text)
 	for _, o := range sub.Obls {
 		if len(only) > 0 {
